@@ -14,8 +14,10 @@ from .common import case, guarded
 ID = "C09"
 COVER_FILES = ['instances/preflibinstance/matching.py']
 RULE = ("exhaustive: every non-empty directed graph (self-loops, antiparallel edges) on node sets {1}, {1,2}, {1,2,3} "
-        "with weights drawn from a palette of special doubles; random: up to 14 nodes (thorough: up to 60) with ids up to "
-        "10^18, edges inserted in random order through add_edge, overwritten edges (add_edge twice with another weight), "
+        "with weights drawn from a palette of special doubles, and on node sets with negative ids / ids colliding mod 8; "
+        "random: up to 14 nodes (thorough: up to 60) with ids in [-10^18, 10^18]: non-negative (45 %), mixed signs (40 %), "
+        "all negative (15 %), negative sources / targets / self-loops, pairs colliding modulo 8 such as {7,15}, {3,11}; "
+        "names only on non-negative ids; edges inserted in random order through add_edge, overwritten edges (add_edge twice with another weight), "
         "isolated nodes through add_node, weights from random finite 64-bit patterns, negative, subnormal, huge, -0.0, "
         "integer-valued, 0.1, 1/3, equal weights, and (20 % of all weights) values whose repr uses exponent notation "
         "(1e+16, -3.75e+300, 1.7976931348623157e+308, 5e-324, 1e-07, 9999999999999998.0, 1e22, integers-as-floats >= "
@@ -33,8 +35,10 @@ RULE = ("exhaustive: every non-empty directed graph (self-loops, antiparallel ed
         "distribution; a difference alone is not a violation because the property does not prescribe the bytes of the "
         "first file); (f) the codec hypotheses of the theorems on every generated weight token; (g) header_only on both "
         "sides. non-trivial = >= 2 edges and a non-integer weight")
-EXHAUSTIVE = {"quick": "all 527 non-empty digraphs on {1}, {1,2}, {1,2,3} (one weight palette)",
-              "thorough": "all non-empty digraphs on {1}, {1,2}, {1,2,3} x 3 weight palettes x 2 insertion orders"}
+EXHAUSTIVE = {"quick": "all 527 non-empty digraphs on {1}, {1,2}, {1,2,3} (one weight palette) + all non-empty digraphs on "
+                       "{-1}, {-1,1}, {-2,-1}, {-9,0,7}, {7,15}, {3,11,-5}, {-10^18,10^18}",
+              "thorough": "all non-empty digraphs on {1}, {1,2}, {1,2,3} x 3 weight palettes x 2 insertion orders + the "
+                          "relabelled node sets of the quick tier"}
 THEOREMS_FOR_OP = {"c09.roundtrip": "C09_roundtrip, C09_idempotent, C09_header_only (Properties/C09.v); on the extracted "
                                     "instantiation: C09_roundtrip_tokens, C09_idempotent_tokens",
                    "c09.parse": "none (parser-fidelity record, see RULE)"}
@@ -50,12 +54,14 @@ TRUSTED = ["C09 theorems are stated for an abstract weight type W with Section h
            "Lib/PyStr.readlines) are exercised, not proved",
            "modelled: WeightedDiGraph (add_node, add_edge, edges, nodes, outgoing_edges), MatchingInstance.parse/.write, "
            "PrefLibInstance.parse_lines/parse_metadata/write_metadata; int() restricted to ASCII digits"]
-ASSUMPTIONS = ["node ids are non-negative Python ints (the name pattern (\\d+) and the model's N exclude a sign)",
+ASSUMPTIONS = ["node ids are Python ints of either sign (model: Z), written by str() and read by int(); alternatives_name "
+               "is keyed by the NON-NEGATIVE nodes only: the name pattern (\\d+) cannot match a signed id, so a name on a "
+               "negative id is outside the reading of 'well-formed instance'",
                "weights are finite Python floats (nan/inf excluded by the quantifier: 'any finite float value')",
                "metadata values and alternative names are single-line (none of the 10 str.splitlines boundaries) and "
                "str.strip() is the identity on them; the empty name is included",
-               "well-formed matching instance: num_edges = number of stored edges, alternatives_name keyed by the nodes, "
-               "num_alternatives = number of nodes, data_type 'wmd', at least one edge"]
+               "well-formed matching instance: num_edges = number of stored edges, alternatives_name keyed by the "
+               "non-negative nodes, num_alternatives = number of nodes, data_type 'wmd', at least one edge"]
 TIMEOUT_S = 60.0
 # (e) model-write(i) == impl.write(i) byte for byte.  False: recorded in the distribution only (the property does not
 # prescribe the bytes of the FIRST file, only that the second file equals it: a harmless change of the layout that both
@@ -201,18 +207,38 @@ def generate(tier, seed):
                         ops += [[0, n] for n in range(k, 0, -1)]
                     alts = [(n, "Alt %d" % n) for n in nodes_of_ops(ops)]
                     out.append(mk_case(default_meta(), 0, alts, ops, exh=1, k=k))
+    # the same on node sets with negative ids / ids colliding modulo 8 (set iteration order differs from sorted order)
+    for label in ([-1], [-1, 1], [-2, -1], [-9, 0, 7], [7, 15], [3, 11, -5], [-10 ** 18, 10 ** 18]):
+        k = len(label)
+        pairs = [(a, b) for a in range(k) for b in range(k)]
+        for mask in range(1, 1 << len(pairs)):
+            pal = palettes[0]
+            es = [p for j, p in enumerate(pairs) if mask >> j & 1]
+            if mask % 2:
+                es = es[::-1]
+            ops = [[1, label[a], label[b], bits_of_f(pal[a * 3 + b])] for a, b in es]
+            alts = [(n, "Alt %d" % n) for n in nodes_of_ops(ops) if n >= 0]
+            out.append(mk_case(default_meta(), 0, alts, ops, exh=2, k=k))
     # ---- random structured
     nrand = 500 if tier == "quick" else 6000
     for i in range(nrand):
         big = tier != "quick" and i % 10 == 0
         k = rng.randint(1, 60 if big else 14)
         scale = rng.choice([1, 1, 2, 6, 18])
-        if scale == 1:
-            ids = rng.sample(range(0, k + 3), k)
-        else:
-            ids = rng.sample(range(0, 10 ** scale + 1), k)
-            if rng.random() < 0.3:
-                ids[0] = 10 ** 18
+        sign = rng.choice(["nonneg"] * 9 + ["mixed"] * 8 + ["allneg"] * 3)
+        lo = {"nonneg": 0, "mixed": -(k + 3) if scale == 1 else -10 ** scale, "allneg": -(k + 3) if scale == 1 else -10 ** scale}[sign]
+        hi = -1 if sign == "allneg" else (k + 3 if scale == 1 else 10 ** scale)
+        if hi - lo + 1 < k:
+            lo = hi - k - 2
+        ids = rng.sample(range(lo, hi + 1), k)
+        if scale != 1 and rng.random() < 0.3:
+            ids[0] = -10 ** 18 if sign == "allneg" or (sign == "mixed" and rng.random() < 0.5) else 10 ** 18
+            ids = list(dict.fromkeys(ids))
+            k = len(ids)
+        if scale == 1 and rng.random() < 0.3:                      # ids colliding modulo 8: {7, 15}, {3, 11}, ...
+            base = rng.choice([3, 7, 5, 1])
+            ids = list(dict.fromkeys(ids + [base, base + 8] + ([base - 8, base + 16] if sign != "nonneg" else [])))
+            k = len(ids)
         ne = rng.randint(1, 4 * k if not big else 6 * k)
         ops = []
         style = rng.random()
@@ -232,7 +258,7 @@ def generate(tier, seed):
                 ops.append([1, a, b, rand_weight_bits(rng)])        # overwrite
         for _ in range(rng.randint(0, 3)):                           # isolated / repeated add_node
             ops.insert(rng.randint(0, len(ops)), [0, rng.choice(ids) if rng.random() < 0.5
-                                                   else rng.randint(0, 10 ** scale + 5)])
+                                                   else rng.randint(lo, hi + 5)])
         if rng.random() < 0.3:
             rng.shuffle(ops)
         ops2, mode = [], 0
@@ -246,13 +272,13 @@ def generate(tier, seed):
                     ops2.append([1, a, b, rand_weight_bits(rng)])
                 elif r < 0.9:                                         # new edge (maybe a new node)
                     a = rng.choice(ids)
-                    b = rng.choice(ids) if rng.random() < 0.7 else rng.randint(0, 10 ** scale + 7)
+                    b = rng.choice(ids) if rng.random() < 0.7 else rng.randint(lo, hi + 7)
                     ops2.append([1, a, b, rand_weight_bits(rng)])
                     stored.append((a, b))
                 else:
-                    ops2.append([0, rng.randint(0, 10 ** scale + 7)])
+                    ops2.append([0, rng.randint(lo, hi + 7)])
         nodes = nodes_of_ops(ops + ops2)
-        named = list(nodes)
+        named = [n for n in nodes if n >= 0]
         if rng.random() < 0.5:
             rng.shuffle(named)
         alts = [(n, rand_text(rng) if rng.random() < 0.7 else "Alternative %d" % n) for n in named]
@@ -268,7 +294,11 @@ def generate(tier, seed):
                 ops = [[1, a, b, rand_weight_bits(rng)] for a, b in es]
                 ops2 = [[1, a, b, rand_weight_bits(rng)] for a, b in es if rng.random() < 0.8]
                 ops2 += [[1, a, b, rand_weight_bits(rng)] for a, b in pairs if (a, b) not in es and rng.random() < 0.3]
-                alts = [(n, "Alt %d" % n) for n in nodes_of_ops(ops + ops2)]
+                if j % 3 == 2:                                        # negative labels
+                    relab = {1: -3, 2: 4, 3: -11}
+                    ops = [[1, relab[o[1]], relab[o[2]], o[3]] for o in ops]
+                    ops2 = [[1, relab[o[1]], relab[o[2]], o[3]] for o in ops2]
+                alts = [(n, "Alt %d" % n) for n in nodes_of_ops(ops + ops2) if n >= 0]
                 out.append(mk_case(default_meta(), 0, alts, ops, ops2, mode, hist=1, k=k))
     return out
 
@@ -293,6 +323,10 @@ def fidelity_cases(rng, n):
         edges = []
         for _ in range(rng.randint(0, 5)):
             a, b = rng.randint(1, k), rng.randint(1, k)
+            if rng.random() < 0.25:
+                a = -a
+            if rng.random() < 0.25:
+                b = -b
             w = repr(f_of_bits(rand_weight_bits(rng)))
             style = rng.random()
             if style < 0.5:
@@ -351,10 +385,10 @@ def bookkeeping(inst, alts, nv):
         if a in inst.node_mapping and a not in names:
             names[a] = want[a]
     for n in inst.node_mapping:
-        if n not in names:
+        if n not in names and n >= 0:
             names[n] = "Alternative %d" % n
     inst.alternatives_name = names
-    inst.num_alternatives = len(names)
+    inst.num_alternatives = len(inst.node_mapping)
     inst.num_voters = nv
     inst.num_edges = sum(len(s) for s in inst.node_mapping.values())
 
@@ -767,8 +801,18 @@ def stats(c, r, m):
         labels.append("has overwritten edge")
     if len(b["nodes"]) > len(b["incident"]):
         labels.append("has isolated node")
-    if any(n >= 10 ** 15 for n in b["nodes"]):
-        labels.append("node id >= 10^15")
+    if any(abs(n) >= 10 ** 15 for n in b["nodes"]):
+        labels.append("|node id| >= 10^15")
+    if any(a < 0 for a, _ in pairs):
+        labels.append("negative source id")
+    if any(b2 < 0 for _, b2 in pairs):
+        labels.append("negative target id")
+    if any(a < 0 and a == b2 for a, b2 in pairs):
+        labels.append("negative self-loop")
+    if all(n < 0 for n in b["nodes"]):
+        labels.append("all node ids negative")
+    if any((a - b2) % 8 == 0 and a != b2 for a in b["nodes"] for b2 in b["nodes"]):
+        labels.append("node ids colliding modulo 8")
     ws = [f_of_bits(w) for _, _, w in es]
     if any(w < 0 for w in ws):
         labels.append("negative weight")
@@ -835,7 +879,7 @@ def shrink(c):
         nodes = nodes_of_ops(ops_new + hh)
         a2 = [[a, nm] for a, nm in (alts if alts2 is None else alts2) if a in nodes]
         for n in nodes:
-            if n not in [a for a, _ in a2]:
+            if n >= 0 and n not in [a for a, _ in a2]:
                 a2.append([n, proto.text("n")])
         return dict(c, payload=[meta if meta2 is None else meta2, nv, a2, ops_new, hh, mode])
 
